@@ -182,3 +182,77 @@ static void op_txt(char **tok, int ntok)
 		free(dst); free(b); free(s); free(res);
 	} else puts("bad-op");
 }
+
+/* Added S1 ops: the two special responses of iodined (same style as h_wire.h; include after it).
+ *
+ * dnsns <id> <type> <buflen> <hexname> <hextopdomain> <hexaddr|->  -> len=<n> pkt=<hex>
+ *     dns_encode_ns_response(buf, buflen, q, topdomain); q->destination is AF_INET with the four given
+ *     address bytes (memory order), or AF_INET6 when the address is "-".
+ * dnsa <id> <type> <buflen> <hexname> <hexaddr|->                  -> len=<n> pkt=<hex>
+ *     dns_encode_a_response(buf, buflen, q)
+ * The output buffer is an exactly sized heap object (ASan sees any store beyond buflen). */
+static int fill_dest(struct query *q, const char *hx)
+{
+	size_t alen;
+	unsigned char *a = hex_alloc(hx, &alen);
+	struct sockaddr_in *dest = (struct sockaddr_in *) &q->destination;
+
+	if (!a) return -1;
+	if (alen == 0) {
+		q->destination.ss_family = AF_INET6;
+	} else if (alen == 4) {
+		dest->sin_family = AF_INET;
+		memcpy(&dest->sin_addr.s_addr, a, 4);
+		q->dest_len = sizeof(*dest);
+	} else { free(a); return -1; }
+	free(a);
+	return 0;
+}
+
+static void op_dnsns(char **tok, int ntok)
+{
+	struct query q;
+	size_t buflen, nlen, tlen;
+	unsigned char *name, *top;
+	char *buf, *td;
+	int len;
+
+	if (ntok != 7) { puts("bad-op"); return; }
+	buflen = strtoul(tok[3], NULL, 10);
+	name = hex_alloc(tok[4], &nlen);
+	top = hex_alloc(tok[5], &tlen);
+	if (!name || !top) { puts("bad-op"); return; }
+	fill_query(&q, atoi(tok[1]), atoi(tok[2]), name, nlen);
+	if (fill_dest(&q, tok[6]) < 0) { puts("bad-op"); free(name); free(top); return; }
+	td = xmalloc(tlen + 1);
+	memcpy(td, top, tlen);
+	td[tlen] = 0;
+	buf = xmalloc(buflen);
+	len = dns_encode_ns_response(buf, buflen, &q, td);
+	printf("len=%d pkt=", len);
+	print_hex((unsigned char *) buf, len > 0 ? len : 0);
+	putchar('\n');
+	free(buf); free(td); free(name); free(top);
+}
+
+static void op_dnsa(char **tok, int ntok)
+{
+	struct query q;
+	size_t buflen, nlen;
+	unsigned char *name;
+	char *buf;
+	int len;
+
+	if (ntok != 6) { puts("bad-op"); return; }
+	buflen = strtoul(tok[3], NULL, 10);
+	name = hex_alloc(tok[4], &nlen);
+	if (!name) { puts("bad-op"); return; }
+	fill_query(&q, atoi(tok[1]), atoi(tok[2]), name, nlen);
+	if (fill_dest(&q, tok[5]) < 0) { puts("bad-op"); free(name); return; }
+	buf = xmalloc(buflen);
+	len = dns_encode_a_response(buf, buflen, &q);
+	printf("len=%d pkt=", len);
+	print_hex((unsigned char *) buf, len > 0 ? len : 0);
+	putchar('\n');
+	free(buf); free(name);
+}
